@@ -48,20 +48,22 @@ def build(run):
     P2v, P1, P0 = E.LagrangeElement(cell, 2, (2,)), E.LagrangeElement(cell, 1), E.FiniteElement("DG", cell, 0, (), identity_pullback, ufl.sobolevspace.L2)
     f = ufl.Coefficient(ufl.FunctionSpace(tri, P1))
 
-    def sizes(els):
+    def sizes(els, msh=None):
+        """PHYSICAL value sizes of the sub-function spaces (they differ from the reference sizes for symmetric and Piola-on-manifold elements)"""
         out = []
         for e in els:
             n = 1
-            for s in e.reference_value_shape:
+            for s in ufl.FunctionSpace(msh or tri, e).value_shape:
                 n *= s
             out.append(n)
         return out
 
     # ------------------------------------------------------------------ route 1: mixed element
-    def mixed_route(ename, els, forms):
-        M = ufl.FunctionSpace(tri, E.MixedElement(list(els)))
+    def mixed_route(ename, els, forms, msh=None):
+        msh = msh or tri
+        M = ufl.FunctionSpace(msh, E.MixedElement(list(els)))
         v, u = TestFunction(M), TrialFunction(M)
-        sz = sizes(els)
+        sz = sizes(els, msh)
         offs = [sum(sz[:k]) for k in range(len(sz) + 1)]
 
         def world(i=None, j=None, sub_names=False, block=None):
@@ -171,6 +173,29 @@ def build(run):
         yield "three-field", lambda: (ua * va + ub[0] * vb[0] + uc * vc + ua * vc + ub[1] * va) * dx + uc * div(vb) * dx
         yield "three-field rhs", lambda: (f * va + f * vb[1]) * dx + vc * ds
     mixed_route("P1-P2v-P0", (P1, P2v, P0), forms3)
+
+    # sub-elements whose reference value size differs from the physical one: a symmetric 2x2 tensor (3 vs 4) first, then vector and scalar
+    SYM = E.SymmetricElement({(0, 0): 0, (0, 1): 1, (1, 0): 1, (1, 1): 2}, [P1, P1, P1])
+
+    def forms_sym(v, u):
+        (vS, vv_, vq), (uS, uu_, uq) = split(v), split(u)
+        yield "symmetric-vector-scalar", lambda: (inner(uS, vS) + dot(uu_, vv_) + uq * vq + uS[0, 1] * vq + uu_[1] * vS[1, 0] + uq * vv_[0]) * dx
+        yield "symmetric-vector-scalar rhs", lambda: (f * vS[1, 0] + f * vv_[0] + vq + f * f * vS[1, 1]) * dx + vv_[1] * ds
+        yield "symmetric-vector-scalar rhs without the last block", lambda: (f * vS[0, 0] + f * vv_[1]) * dx
+    mixed_route("Sym2x2-P2v-P1", (SYM, P2v, P1), forms_sym)
+
+    # contravariant Piola element on a triangle immersed in 3D (reference size 2, physical size 3) before other sub-elements
+    tri3 = mesh("triangle", 3)
+    cell3 = tri3.ufl_cell()
+    RT3 = E.FiniteElement("Raviart-Thomas", cell3, 1, (2,), ufl.pullback.contravariant_piola, ufl.sobolevspace.HDiv)
+    P1v3, P1s3 = E.LagrangeElement(cell3, 1, (3,)), E.LagrangeElement(cell3, 1)
+    f3 = ufl.Coefficient(ufl.FunctionSpace(tri3, P1s3))
+
+    def forms_rt3(v, u):
+        (vs_, vv_, vq), (us_, uu_, uq) = split(v), split(u)
+        yield "Hdiv-vector-scalar on a manifold", lambda: (dot(us_, vs_) + dot(uu_, vv_) + uq * vq + us_[2] * vq + uu_[1] * vs_[0]) * dx
+        yield "Hdiv-vector-scalar on a manifold rhs", lambda: (f3 * vs_[2] + f3 * vv_[0] + vq) * dx
+    mixed_route("RT(manifold)-P1v-P1", (RT3, P1v3, P1s3), forms_rt3, msh=tri3)
 
     # ------------------------------------------------------------------ route 2: MixedFunctionSpace (arguments with parts)
     def mfs_route():
